@@ -1742,6 +1742,15 @@ class PEval:
                 return math.copysign(1.0, a0)
             if fname == "copysign" and len(args) == 2 and isinstance(args[1], float):
                 return math.copysign(a0, args[1])
+            if fname in ("powf", "sqrt", "exp", "ln", "log10", "log2") and all(isinstance(x, float) for x in args):
+                from . import floatfmt
+                r_ = floatfmt.libm(fname, *args)
+                if r_ is not None:
+                    return r_
+            if fname in ("abs", "floor", "ceil", "trunc", "round") and not math.isfinite(a0):
+                return abs(a0) if fname == "abs" else a0
+            if fname == "fract" and not math.isfinite(a0):
+                return math.nan
             if fname in ("abs", "floor", "ceil", "trunc", "fract", "round") and math.isfinite(a0):
                 return {"abs": abs(a0), "floor": float(math.floor(a0)), "ceil": float(math.ceil(a0)), "trunc": float(math.trunc(a0)), "fract": a0 - math.trunc(a0), "round": float(round(a0))}[fname]
         if all(isinstance(x, int) and not isinstance(x, bool) for x in args) and args:
